@@ -4,6 +4,7 @@ Property theorems only (toolkit side; trxcon's response parser is in Props/Trxco
 World model: `OsmoVerif.World` (Model/World.lean), command semantics: `OsmoVerif.Spec.Trxc`.
 -/
 import OsmoVerif.Lemmas.WorldText
+import OsmoVerif.Lemmas.WorldExamples
 
 namespace OsmoVerif.Props.C05
 open OsmoVerif OsmoVerif.World OsmoVerif.PyStr
@@ -385,5 +386,75 @@ theorem setfh_not_truncated (hsn maio : Nat) (pairs : List (Nat × Nat)) (k : Na
 /-- the two extreme mobile allocations trxcon can encode -/
 theorem setfh_max_fits :
     2 * 64 * (6 + 1) ≤ 999 ∧ 2 * 62 * (7 + 1) ≤ 999 ∧ ¬ (2 * 63 * (7 + 1) ≤ 999) := by decide
+
+/-! ### non-vacuity: every status branch is reachable (kernel evaluation of the model on concrete
+datagrams to the MS-side transceiver of the default application, replies as NUL-terminated text) -/
+
+open Ex in
+example : (handleRx w0 1 2 6801 (z "CMD RXTUNE 935000")).out =
+    [⟨6701, 2, 6801, z "RSP RXTUNE 0 935000"⟩] := by decide +kernel
+
+/-- POWERON refused until tuned, accepted once, refused while running; POWEROFF -/
+example : Ex.replies Ex.w0 [Ex.z "CMD POWERON", Ex.z "CMD RXTUNE 935000", Ex.z "CMD TXTUNE 890000",
+      Ex.z "CMD POWERON", Ex.z "CMD POWERON", Ex.z "CMD POWEROFF"] =
+    [[Ex.z "RSP POWERON -1"], [Ex.z "RSP RXTUNE 0 935000"], [Ex.z "RSP TXTUNE 0 890000"],
+     [Ex.z "RSP POWERON 0"], [Ex.z "RSP POWERON -1"], [Ex.z "RSP POWEROFF 0"]] := by decide +kernel
+
+/-- POWERON accepted when only hopping is configured -/
+example : Ex.replies Ex.w0 [Ex.z "CMD SETFH 0 0 935000 890000 935200 890200", Ex.z "CMD POWERON"] =
+    [[Ex.z "RSP SETFH 0 0 0 935000 890000 935200 890200"], [Ex.z "RSP POWERON 0"]] := by
+  decide +kernel
+
+/-- SETFORMAT: applied / highest supported lower version / out of range -/
+example : Ex.replies Ex.w0 [Ex.z "CMD SETFORMAT 1", Ex.z "CMD SETFORMAT 2", Ex.z "CMD SETFORMAT 15",
+      Ex.z "CMD SETFORMAT 16", Ex.z "CMD SETFORMAT -1"] =
+    [[Ex.z "RSP SETFORMAT 1 1"], [Ex.z "RSP SETFORMAT 1 2"], [Ex.z "RSP SETFORMAT 1 15"],
+     [Ex.z "RSP SETFORMAT -1 16"], [Ex.z "RSP SETFORMAT -1 -1"]] := by decide +kernel
+
+/-- simulation commands: refused values, accepted values, negative RSSI threshold disables -/
+example : Ex.replies Ex.w0 [Ex.z "CMD FAKE_DROP -1", Ex.z "CMD FAKE_DROP 3 0", Ex.z "CMD FAKE_DROP 3 2",
+      Ex.z "CMD FAKE_TOA 0 -5", Ex.z "CMD FAKE_TOA 0 5", Ex.z "CMD FAKE_CI 0 -1",
+      Ex.z "CMD FAKE_RSSI -60 -1", Ex.z "CMD FAKE_RSSI -60 3", Ex.z "CMD SETTA 2",
+      Ex.z "CMD FAKE_TRXC_DELAY 0"] =
+    [[Ex.z "RSP FAKE_DROP -1 -1"], [Ex.z "RSP FAKE_DROP -1 3 0"], [Ex.z "RSP FAKE_DROP 0 3 2"],
+     [Ex.z "RSP FAKE_TOA -1 0 -5"], [Ex.z "RSP FAKE_TOA 0 0 5"], [Ex.z "RSP FAKE_CI -1 0 -1"],
+     [Ex.z "RSP FAKE_RSSI 0 -60 -1"], [Ex.z "RSP FAKE_RSSI 0 -60 3"], [Ex.z "RSP SETTA 0 2"],
+     [Ex.z "RSP FAKE_TRXC_DELAY 0 0"]] := by decide +kernel
+
+/-- malformed arguments → −1; wrong argument count or unknown verb → 0; SETFH: HSN 64 → −1,
+three arguments → 0; results of MEASURE (first draw of seed 0 from the noise range) and NOMTXPOWER -/
+example : Ex.replies Ex.w0 [Ex.z "CMD RXTUNE abc", Ex.z "CMD RXTUNE", Ex.z "CMD FOO 1 2",
+      Ex.z "CMD SETFH 64 0 935000 890000", Ex.z "CMD SETFH 1 2 3", Ex.z "CMD MEASURE 935000",
+      Ex.z "CMD NOMTXPOWER", Ex.z "CMD"] =
+    [[Ex.z "RSP RXTUNE -1 abc"], [Ex.z "RSP RXTUNE 0"], [Ex.z "RSP FOO 0 1 2"],
+     [Ex.z "RSP SETFH -1 64 0 935000 890000"], [Ex.z "RSP SETFH 0 1 2 3"],
+     [Ex.z "RSP MEASURE 0 935000 -120"], [Ex.z "RSP NOMTXPOWER 0 50"], [Ex.z "RSP  0"]] := by
+  decide +kernel
+
+/-- non-text octets and a wrong signature are ignored -/
+example : Ex.replies Ex.w0 [[0xff], Ex.z "RSP POWERON 0", []] = [[], [], []] ∧
+    Ex.excs Ex.w0 [[0xff], Ex.z "RSP POWERON 0", []] = [none, none, none] := by decide +kernel
+
+/-- the hypotheses of the effect lemmas are satisfiable: `int()` of decimal texts -/
+example : pyInt (lit "935000") = some 935000 ∧ pyInt (lit "-5") = some (-5) ∧
+    pyInt (lit " +7_0 ") = some 70 ∧ pyInt (lit "abc") = none ∧ pyInt (lit "") = none := by
+  decide +kernel
+
+example : IntArgs [lit "935000", lit "890000"] [935000, 890000] := by
+  unfold IntArgs; decide +kernel
+
+/-- a request outside the table -/
+example : NotInTable [lit "RXTUNE"] ∧ NotInTable [lit "FOO", lit "1"] ∧ ¬ NotInTable [lit "POWERON"] := by
+  unfold NotInTable; decide +kernel
+
+/-- trxcon's texts are the expected octets; the longest mobile allocations fit -/
+example : (TrxconCmd.rxtune 935000).text = Ex.z "CMD RXTUNE 935000" ∧
+    (TrxconCmd.setta (-3)).text = Ex.z "CMD SETTA -3" ∧ TrxconCmd.echo.text = Ex.z "CMD ECHO" ∧
+    (TrxconCmd.setfh 5 1 [(935000, 890000), (935200, 890200)]).text =
+      Ex.z "CMD SETFH 5 1 935000 890000 935200 890200" := by decide +kernel
+
+example : (TrxconCmd.setfh 63 63 (List.replicate 64 (959800, 914800))).text.length = 912 ∧
+    (TrxconCmd.setfh 63 63 (List.replicate 62 (1879800, 1784800))).text.length = 1008 := by
+  decide +kernel
 
 end OsmoVerif.Props.C05
